@@ -2,7 +2,7 @@
     shapes of [MainRun.run_with_case]: totality and exit status, no script on exit 1, exactly one
     script on exit 0, the diagnostics are those of the verdict of [Driver.compile], the warnings are
     [Diag.warning_messages] and nothing else depends on them.  Statements: [Props/C06c.v],
-    [Props/C15b.v]. *)
+    [Props/C15c.v]. *)
 From CG Require Import Base.Prelude Model.Ast Model.Lexer Model.Parser Model.Check Model.Regex.
 From CG Require Import Model.Dfa Model.Driver Model.Diag Model.Compiler Model.Main.
 From CG Require Import Proofs.PipelineTotal Proofs.DiagPipeline Proofs.MainRun.
